@@ -918,6 +918,7 @@ func (x *Unit) execTypeSwitch(st *State, s *ast.TypeSwitchStmt, fl *flow, label 
 			if len(cc.List) == 1 && single != nil && !isIface(single) {
 				a.env[o] = Val{x.u.Unbox(IfaceVal(v.T), x.u.SortOf(single)), single}
 				x.assume(a, x.typeInv(a, a.env[o], 1))
+				x.assumeNoTypedNil(a, a.env[o])
 			} else {
 				a.env[o] = Val{v.T, o.Type()}
 			}
